@@ -6,11 +6,12 @@ from lib.verif import *
 THEOREMS = [
     "C11_handshake_agrees", "C11_handshake_rejects", "C11_stream_roundtrip",
     "C11_nonce_unique", "C11_tamper_rejected", "C11_conn_stream_roundtrip",
+    "C11_sessions_independent",
 ]
 MODULE = "LV.Noise.Props"
 TARGETS = ["theories/Noise/Props.vo", "theories/Noise/Exec.vo", "theories/Noise/Examples.vo",
            "theories/Noise/GenBridge.vo"]
-HARNESS = ["brontide/verif_noise_test.go"]
+HARNESS = ["brontide/verif_noise_test.go", "brontide/verif_noise_multi_test.go"]
 WARM = [{"pkg": "brontide", "files": HARNESS}]
 IMPORTS = ("From Coq Require Import List NArith Bool.\nImport ListNotations.\n"
            "From LV Require Import Noise.Model Noise.Exec.\n")
@@ -59,6 +60,8 @@ def ckop(o):
         return "KReadHdr %s %d %d" % (cbool(o[1]), o[2], o[3])
     if k == "crb":
         return "KReadBody %s %d %d %s" % (cbool(o[1]), o[2], o[3], comsg(o[4]))
+    if k == "cc":
+        return "KClear %s" % cbool(o[1])
     raise ValueError(k)
 
 
@@ -112,6 +115,8 @@ def ctop(o):
                                                   o[5], o[6], o[7], o[8])
     if k == "t":
         return "TTamp %s %s" % (cbool(o[1]), cptamper(o[2]))
+    if k == "c":
+        return "TClear %s" % cbool(o[1])
     raise ValueError(k)
 
 
@@ -215,6 +220,7 @@ def pred_tr(c, stats):
             n, err, calls, took = o[4], o[5], o[6], o[7]
             stats["flush"]["err" if err else "ok"] += 1
             if not d.pending:
+                stats["release"]["tr no-op Flush"] += 1
                 if n != 0 or err or calls != 0 or took != 0:
                     f.append("op %d: Flush with nothing buffered did something" % i)
                 continue
@@ -296,6 +302,24 @@ def pred_tr(c, stats):
                 d.failed_since_tamper = False
             elif o[3] is not None:
                 d.affects = min(d.affects, o[3])
+        elif k == "c":
+            # ClearPendingSend / releaseBuffers.  Redundant when nothing is buffered; otherwise the
+            # sender itself truncates its stream inside the last accepted message.
+            stats["release"]["tr pending" if o[2] else "tr redundant"] += 1
+            if o[2] != d.pending:
+                f.append("op %d: ClearPendingSend found a buffered record: %s, the writes/flushes so far say %s"
+                         % (i, o[2], d.pending))
+            if d.pending:
+                d.pending = False
+                d.affects = min(d.affects, len(d.written) - 1)
+    if c.get("multi"):
+        # several sessions in one process, nobody touches the bytes in flight and the harness
+        # reads everything at the end: every completely sent message has been delivered
+        for b in (True, False):
+            d = D[b]
+            if not c["dead"][int(b)] and d.rlin != 2 * d.completed:
+                f.append("direction %d: %d messages completely sent on an untampered stream, receive "
+                         "position is %d at the end" % (int(b), d.completed, d.rlin))
     return f
 
 
@@ -349,7 +373,19 @@ def pred_conn(c, stats=None):
             if o[3] != 0 and not (pend[d] and o[3] == 6):
                 f.append("op %d: WriteMessage failed with code %d" % (i, o[3]))
             pend[d] = o[4]
+        elif k == "cc":
+            if stats is not None:
+                stats["release"]["conn pending" if o[2] else "conn redundant"] += 1
+            if o[2] != pend[d]:
+                f.append("op %d: ClearPendingSend found a buffered record: %s, the calls so far say %s" % (
+                    i, o[2], pend[d]))
+            pend[d] = False
         elif k == "cf":
+            if not pend[d]:
+                if stats is not None:
+                    stats["release"]["conn no-op Flush"] += 1
+                if o[3] != 0 or o[4] != 0 or o[5] != 0 or o[6] != 0:
+                    f.append("op %d: Conn.Flush with nothing buffered did something" % i)
             if o[4] == 0 and o[7]:
                 f.append("op %d: Flush returned no error but a record is still buffered" % i)
             if o[4] not in (0, 8):
@@ -381,6 +417,45 @@ def pred_conn(c, stats=None):
     return f
 
 
+def multi_units(c):
+    """The per-session cases of a multi row: [(label, session case)].  For an enum group: the sessions
+    of the reference (sequential) merge and of every emitted deviating merge."""
+    u = [("s%d" % i, sc) for i, sc in enumerate(c["sessions"])]
+    for j, dv in enumerate(c.get("deviating") or []):
+        u += [("merge %s s%d" % ("".join(str(x) for x in dv["sched"]), i), sc)
+              for i, sc in enumerate(dv["sessions"])]
+    return u
+
+
+def pred_multi(c, stats):
+    """Several sessions alive in one process (enum: all merges of two scripts; rand: seeded
+    interleaving of 2..4 actors; conc: one goroutine per session).  Nothing is tampered with, so for
+    EVERY session the per-session predicate must hold with 'every completely sent message is
+    delivered, in order, unaltered' (pred_tr / pred_conn, multi flag); a returned message must not
+    change after the read returned; the trace of a session must not depend on the merge."""
+    f = []
+    fam = c["family"]
+    stats["multi_families"][fam] = stats["multi_families"].get(fam, 0) + 1
+    stats["multi_modes"]["%s/%s" % (fam, c["mode"])] = stats["multi_modes"].get("%s/%s" % (fam, c["mode"]), 0) + 1
+    stats["multi_merges"] += c.get("merges", 1)
+    stats["multi_steps_while_other_pending"] += c.get("steps_while_other_pending", 0)
+    ks = "+".join(sorted(sc["kind"] for sc in c["sessions"]))
+    stats["multi_session_mix"][ks] = stats["multi_session_mix"].get(ks, 0) + 1
+    for v in c.get("variants") or []:
+        key = "x=%s %s" % ({0: "clear", 5: "no-op flush", 7: "flush+clear"}.get(v["x"], v["x"]),
+                           "header cut" if v["hdr_cut"] else "body cut")
+        stats["multi_enum_variants"][key] = stats["multi_enum_variants"].get(key, 0) + 1
+    for label, sc in multi_units(c):
+        sub = pred_tr(sc, stats) if sc["kind"] == "tr" else pred_conn(sc, stats)
+        f += ["session %s (%s): %s" % (label, sc["kind"], x) for x in sub[:4]]
+    if any(c["kept_bad"]):
+        f.append("a message returned by an earlier read was altered afterwards (%s per session)" % c["kept_bad"])
+    if c.get("n_deviating"):
+        f.append("the trace of a session depends on how it is interleaved with another session: %d of %d "
+                 "merges deviate from the sequential run" % (c["n_deviating"], c["merges"]))
+    return f
+
+
 def size_hist_conn(sizes):
     h = {}
     for x in sizes:
@@ -405,6 +480,9 @@ def predicate_all(ctx, rows, stats, limit=3, env=None):
             f, th = pred_tr(c, stats), "C11_stream_roundtrip"
             if f and ("tamper" in f[0] or "position" in f[0] or "twice" in f[0]):
                 th = "C11_tamper_rejected" if "tamper" in f[0] else "C11_nonce_unique"
+        elif c["kind"] == "multi":
+            f = pred_multi(c, stats)
+            th = "C11_conn_stream_roundtrip" if f and "(conn)" in f[0] else "C11_stream_roundtrip"
         else:
             f, th = pred_conn(c, stats), "C11_conn_stream_roundtrip"
         if f:
@@ -423,7 +501,11 @@ def new_stats():
     return {"ops": {}, "wcodes": {}, "rcodes": {}, "flush": {"ok": 0, "err": 0}, "tampers": {},
             "sizes": [], "rotations": 0, "many_msgs": 0, "tamper_rejected": 0,
             "odd_position_reads": 0, "bulk_after_break_delivered": 0,
-            "conn_ops": {}, "conn_write_codes": {}, "conn_read_codes": {}, "conn_write_sizes": []}
+            "conn_ops": {}, "conn_write_codes": {}, "conn_read_codes": {}, "conn_write_sizes": [],
+            "release": {"tr no-op Flush": 0, "tr redundant": 0, "tr pending": 0,
+                        "conn no-op Flush": 0, "conn redundant": 0, "conn pending": 0},
+            "multi_families": {}, "multi_modes": {}, "multi_merges": 0, "multi_session_mix": {},
+            "multi_enum_variants": {}, "multi_steps_while_other_pending": 0}
 
 
 def run(ctx):
@@ -435,12 +517,15 @@ def run(ctx):
         "the Seal output for the same key/nonce/ad; for the handshake also key- and ad-binding), "
         "injectivity of dh in the public key and of hkdf in the input, and (act three) Open(Seal p)=p and "
         "'a 33-byte string parses to at most one point' for C11_handshake_rejects; functional AEAD for "
-        "C11_conn_stream_roundtrip; ideal "
+        "C11_conn_stream_roundtrip and C11_sessions_independent; ideal "
         "AEAD + 'no ciphertext valid under a session (key, nonce) other than the honest one appears in the "
         "stream' (INT-CTXT stated symbolically) for C11_tamper_rejected; C11_nonce_unique needs nothing",
         "io.Writer contract (a short write returns an error) is built into the writer model; the net.Conn "
         "under a brontide.Conn is a list of answers to successive Write calls (writing) and an in-memory "
         "byte stream ending in EOF (reading); deadlines themselves are runtime",
+        "the header / body buffer pools of noise.go (sync.Pool, process-wide) are NOT in the model: in the "
+        "model nothing is shared between two sessions (C11_sessions_independent); that the real code "
+        "behaves like that is established by the multi-session correspondence cases only (tested, not proved)",
         "execution uses a tagging AEAD and a toy 61-bit mixing function for HKDF/SHA/ECDH (Noise/Exec.v)"])
     env = {}
     if ctx.replay:
@@ -459,10 +544,21 @@ def run(ctx):
     nfail = predicate_all(ctx, rows, stats)
 
     # correspondence: spread the heavy cases over the shards
-    model_rows = [i for i, c in enumerate(rows) if c["kind"] in ("hs", "tr", "conn")]
+    # units replayed by the model: every hs / tr / conn row, and every session of a multi row by its
+    # own independent model instance (identical session traces, e.g. of an enum group, once)
+    units, seen = [], set()
+    for i, c in enumerate(rows):
+        if c["kind"] in ("hs", "tr", "conn"):
+            units.append((i, "", c))
+        elif c["kind"] == "multi":
+            for label, sc in multi_units(c):
+                key = json.dumps(sc["ops"])
+                if key not in seen:
+                    seen.add(key)
+                    units.append((i, label, sc))
     nsh = 12
-    order = [i for s in range(nsh) for i in model_rows[s::nsh]]
-    terms = ["(%s)%%N" % case_term(rows[i]) for i in order]
+    order = [u for s in range(nsh) for u in units[s::nsh]]
+    terms = ["(%s)%%N" % case_term(u[2]) for u in order]
     per = (len(terms) + nsh - 1) // nsh
     ok, bad, logs = coq_mismatches(ctx.uid(), IMPORTS, terms, shard=max(1, per), timeout=2400)
     if not ok:
@@ -472,20 +568,29 @@ def run(ctx):
         # the code no longer behaves like the model: directed search for an input on which the
         # property predicate itself fails (same generators, many more cases of the kinds that
         # disagreed, other seeds)
-        kinds_bad = {rows[order[ti]]["kind"] for ti, _ in bad}
+        kinds_bad = {rows[order[ti][0]]["kind"] for ti, _ in bad}
         for extra in (1, 2, 3):
+            mu = "multi" in kinds_bad
             env2 = {"VERIF_SEED": str(ctx.seed * 7919 + extra),
                     "VERIF_N_CONN": "300" if "conn" in kinds_bad else "0",
                     "VERIF_N_HS": "4000" if "hs" in kinds_bad else "0",
                     "VERIF_N_TR": "400" if "tr" in kinds_bad else "0",
-                    "VERIF_N_ROT": "8" if "tr" in kinds_bad else "0"}
+                    "VERIF_N_ROT": "8" if "tr" in kinds_bad else "0",
+                    "VERIF_N_MULTI": "300" if mu else "0", "VERIF_N_MCONC": "30" if mu else "0",
+                    "VERIF_N_MENUM": "8" if mu else "0"}
             rc2, rows2, _ = run_once(ctx, suffix="d%d" % extra, env=env2)
             if rc2 == 0 and predicate_all(ctx, rows2, new_stats(), limit=1, env=env2):
                 ctx.note("directed search found a failing input with seed %s" % env2["VERIF_SEED"])
                 break
     for ti, opsidx in bad[:3]:
-        c = rows[order[ti]]
-        detail = {"case_index": order[ti], "kind": c["kind"], "op_indices": opsidx[:20]}
+        ci, label, c = order[ti]
+        top = rows[ci]
+        detail = {"case_index": ci, "kind": top["kind"], "op_indices": opsidx[:20]}
+        if top["kind"] == "multi":
+            detail.update({"family": top["family"], "mode": top["mode"], "session": label,
+                           "session_kind": c["kind"], "sched": top.get("sched"),
+                           "variants": top.get("variants"),
+                           "harness_env": {"VERIF_SEED": str(ctx.seed)}})
         if c["kind"] in ("tr", "conn"):
             lo = max(0, opsidx[0] - 6)
             detail["ops_before_and_at_first_disagreement"] = c["ops"][lo:opsidx[0] + 1]
@@ -494,7 +599,7 @@ def run(ctx):
         fails = (pred_hs(c) if c["kind"] == "hs" else pred_conn(c) if c["kind"] == "conn"
                  else pred_tr(c, new_stats()))
         ctx.violation("correspondence_mismatch", "Noise.Exec.check_case", detail,
-                      signature="noise mismatch %s" % c["kind"], failing_input=bool(fails))
+                      signature="noise mismatch %s" % top["kind"], failing_input=bool(fails))
     if not pr["ok"] and not ctx.violations:
         # directed search: more cases under other seeds, predicate only
         for extra in (1, 2):
@@ -529,7 +634,7 @@ def run(ctx):
                               {"sweep_case": ti, "op_indices": opsidx[:20], "ops": rows4[ti]["ops"][:12]},
                               signature="noise mismatch conn sweep", failing_input=True)
             ctx.cov["conn_sweep_cases"] = len(rows4)
-        rc3, rows3, out3 = run_once(ctx, suffix="race", env={"VERIF_CASES": "40"}, race=True)
+        rc3, rows3, out3 = run_once(ctx, suffix="race", env={"VERIF_CASES": "40", "VERIF_N_MENUM": "3", "VERIF_N_MCONC": "150"}, race=True)
         if rc3 != 0:
             ctx.violation("harness_failed", "TestVerifNoise -race", {"log": out3[-3000:]},
                           signature="harness-race", failing_input=False)
@@ -549,7 +654,7 @@ def run(ctx):
         key = "target=%d tampered=%s -> %s" % (c["target"], c["tampered"], c["obs"])
         hs_out[key] = hs_out.get(key, 0) + 1
     ctx.cov.update({
-        "evaluations": len(rows),
+        "evaluations": len(rows) + stats["multi_merges"] - sum(1 for c in rows if c["kind"] == "multi"),
         "distinct_nontrivial": distinct_count(
             [c for c in rows if c["kind"] != "hs" or c["tampered"] or c["target"]],
             lambda c: c),
@@ -562,10 +667,27 @@ def run(ctx):
                 "or failing net.Conn Write at a seeded call index (header / body / inside the MAC), a Write "
                 "while a record is pending, WriteMessage + Flush retries, Conn.Read with buffer sizes 0, 1, "
                 "rest-1, rest, rest+1, 65535, 70000+, ReadNextMessage / ReadNextHeader+Body, reads at end of "
-                "stream and on a torn record; model replays every call).  non-trivial = not an untampered "
-                "handshake; distinct by full case",
-        "traces_validated_against_impl": len(model_rows),
+                "stream and on a torn record; model replays every call), multi-session cases (2..4 sessions, "
+                "Machine level or brontide.Conn level, alive in one process: 'enum' = ALL 924 merges of two "
+                "scripts W F X W Fp Ff (X a redundant release, Fp a Flush cut inside header or body) for "
+                "Machine/Machine, Conn/Conn, Machine/Conn pairs, the harness compares every merge's session "
+                "traces with the sequential merge and emits the deviating ones; 'rand' = seeded interleaving "
+                "of actors doing WriteMessage / Conn.Write / partial, resumed, no-op Flush / ClearPendingSend "
+                "(also on a half sent record) / write while pending / ReadMessage / Conn.Read / ReadNextMessage "
+                "/ ReadNextHeader..ReadNextBody; 'conc' = one goroutine per session; every session is replayed "
+                "by its own model instance and checked by the per-session predicate; results of reads are "
+                "re-compared at the end of the case).  evaluations counts every executed merge.  "
+                "non-trivial = not an untampered handshake; distinct by full case",
+        "traces_validated_against_impl": len(units),
         "case_kinds": kinds,
+        "multi_session_families": stats["multi_families"],
+        "multi_session_family_modes (enum: 0 Machine/Machine 1 Conn/Conn 2 Machine/Conn; rand: 0 uniform "
+        "1 bursts 2 switch-away-while-pending)": stats["multi_modes"],
+        "multi_session_interleavings_executed": stats["multi_merges"],
+        "multi_session_kind_mix": stats["multi_session_mix"],
+        "multi_enum_script_variants": stats["multi_enum_variants"],
+        "multi_rand_steps_while_another_session_has_a_record_half_out": stats["multi_steps_while_other_pending"],
+        "release_ops (no-op Flush / ClearPendingSend with nothing buffered / with a record buffered)": stats["release"],
         "transport_op_kinds": stats["ops"],
         "write_codes": stats["wcodes"], "read_codes": stats["rcodes"], "flush": stats["flush"],
         "pipe_tampers": stats["tampers"], "tampered_reads_rejected": stats["tamper_rejected"],
